@@ -390,3 +390,169 @@ pub fn per_name_all(cx: &RunCtx, kinds: &[Kind]) {
     per_name_dom::<Cpx>(cx, kinds);
     per_name_dom::<Num>(cx, kinds);
 }
+
+/// argument texts at which some function has a branch point, a pole, a sign change or a range limit
+pub fn critical_texts(ev: Ev) -> Vec<String> {
+    let mut t: Vec<&str> = vec![
+        "0", "1", "(-1)", "2", "(-2)", "3", "20", "21", "27", "28", "63", "64", "65", "66", "67", "(-66)", "95", "96", "143", "150", "170", "171", "(-171)", "709", "710", "(-745)", "1023", "1024", "(-1074)",
+        "(-1075)", "4294967296", "9007199254740993", "9223372036854775807", "(-9223372036854775807)", "@",
+    ];
+    if ev.has_point() {
+        t.extend([
+            "0.5", "(-0.5)", "1.5", "(-1.5)", "(-170.5)", "150.5", "(-150.5)", "26.5", "27.5", "66.5", "(-0.36787944117144233)", "(-0.36787944117144232)", "(-0.3678794411714423215955237702)",
+            "(-0.3678794411714423215955237701)", "(-0.3678794411714423215955237703)", "(-0.3678794411714423)", "(-0.36787944117144)", "(-0.367879441171443)", "0.36787944117144233",
+            "1.5707963267948966", "(-1.5707963267948966)", "1.5707963267948966192313216916", "3.141592653589793", "3.1415926535897932384626433833", "6.283185307179586", "2.718281828459045",
+            "2.7182818284590452353602874714", "0.9999999999999999", "1.0000000000000002", "(-0.9999999999999999)", "0.9999999999999999999999999999", "(-0.9999999999999999999999999999)",
+            "0.0000000000000000000000000001", "709.782712893384", "170.6", "171.7", "79228162514264337593543950335",
+        ]);
+    }
+    if ev.has_consts() {
+        t.extend(["e", "pi", "(-pi)", "(-e)", "(pi/2)", "(-pi/2)", "(pi/4)", "(2*pi)", "(3*pi/2)", "(1/e)", "(-1/e)", "(-(1/e))", "(-exp(-1))", "(e^-1)", "(-e^-1)", "(-1/exp(1))", "(pi/6)", "(e-1)", "(1-e)"]);
+    }
+    if ev == Ev::Cpx {
+        t.extend(["i", "(-i)", "(1+i)", "(-1+0i)", "(-1-0i)", "(2i)", "(-2i)", "(i*pi)", "(i*pi/2)", "(1+0i)", "(0.5i)"]);
+    }
+    let mut v: Vec<String> = t.iter().map(|s| s.to_string()).collect();
+    v.sort();
+    v.dedup();
+    v
+}
+
+/// every function name and alias of the evaluator applied to the critical arguments (one argument: all of
+/// them; two: all ordered pairs; variadic: pairs and triples over a sub-list), plus the postfix operators
+pub fn critical(ev: Ev) -> Vec<String> {
+    let crit = critical_texts(ev);
+    let mut out = Vec::new();
+    let names: Vec<(&str, Func)> = func_names(ev).to_vec();
+    let short: Vec<&String> = crit.iter().filter(|c| c.len() <= 9 || c.contains("e)") || c.contains("367879441171442321595")).collect();
+    for (name, f) in &names {
+        match f.arity() {
+            Arity::Fixed(1) => {
+                for c in &crit {
+                    out.push(format!("{}({})", name, c));
+                }
+            }
+            Arity::Fixed(_) => {
+                for a in &crit {
+                    for b in &crit {
+                        out.push(format!("{}({},{})", name, a, b));
+                    }
+                }
+            }
+            _ => {
+                for a in &crit {
+                    out.push(format!("{}({})", name, a));
+                    for b in &crit {
+                        out.push(format!("{}({},{})", name, a, b));
+                    }
+                }
+                for a in &short {
+                    for b in &short {
+                        for c in &short {
+                            out.push(format!("{}({},{},{})", name, a, b, c));
+                        }
+                    }
+                }
+            }
+        }
+    }
+    for c in &crit {
+        if ev.has_factorial() {
+            out.push(format!("{}!", c));
+        }
+        if ev.has_deg_rad() {
+            out.push(format!("{}°", c));
+            out.push(format!("{}rad", c));
+        }
+        if ev.has_floor_brackets() {
+            out.push(format!("⌊{}⌋", c));
+            out.push(format!("⌈{}⌉", c));
+        }
+        out.push(format!("{}²", c));
+        out.push(format!("-{}", c));
+        for d in &crit {
+            for op in ["^", "/", "%", "*", "+", "-"] {
+                out.push(format!("{}{}{}", c, op, d));
+            }
+        }
+    }
+    out.sort();
+    out.dedup();
+    out
+}
+
+fn critical_dom<D: Dom>(cx: &RunCtx, kinds: &[Kind]) {
+    let inputs = critical(D::EV);
+    run_list::<D>(cx, "E-FUNC every name x critical arguments (branch points, poles, range limits)", &inputs, &D::pool_critical(), kinds);
+}
+
+pub fn critical_all(cx: &RunCtx, kinds: &[Kind]) {
+    critical_dom::<F64>(cx, kinds);
+    critical_dom::<I64>(cx, kinds);
+    critical_dom::<Dec>(cx, kinds);
+    critical_dom::<Cpx>(cx, kinds);
+    critical_dom::<Num>(cx, kinds);
+}
+
+/// a call nested in an argument slot of another call, with every slip of argument count, separator and
+/// closer on the inner and on the outer call (the inner slip must not be absorbed by the outer call)
+pub fn nested_slips(ev: Ev) -> Vec<String> {
+    let mut firsts: Vec<(&str, Func)> = Vec::new();
+    for (name, f) in func_names(ev) {
+        if !firsts.iter().any(|(_, g)| g == f) {
+            firsts.push((name, *f));
+        }
+    }
+    let mut out = Vec::new();
+    for (outer, _) in &firsts {
+        for (inner, _) in &firsts {
+            for slot in ["", "2,", "2,3,"] {
+                for iargs in ["", "4", "4,2", "4,2,3"] {
+                    for icl in [")", "", ",", "),", "))"] {
+                        for tail in ["", ",3", ",3,5", "+1"] {
+                            for ocl in [")", ""] {
+                                out.push(format!("{}({}{}({}{}{}{}", outer, slot, inner, iargs, icl, tail, ocl));
+                            }
+                        }
+                    }
+                }
+            }
+        }
+    }
+    // brackets and floor / ceiling brackets as the inner or outer construct
+    let mut groups: Vec<(&str, &str)> = vec![("(", ")")];
+    if ev.has_floor_brackets() {
+        groups.push(("⌊", "⌋"));
+        groups.push(("⌈", "⌉"));
+    }
+    for (outer, _) in &firsts {
+        for (o, c) in &groups {
+            for iargs in ["4", "4,2", ""] {
+                for icl in [*c, "", ","] {
+                    for slot in ["", "2,"] {
+                        for tail in ["", ",3", ")"] {
+                            out.push(format!("{}({}{}{}{}{})", outer, slot, o, iargs, icl, tail));
+                            out.push(format!("{}{}({}{}{}{}", o, outer, slot, iargs, icl, tail));
+                        }
+                    }
+                }
+            }
+        }
+    }
+    out.sort();
+    out.dedup();
+    out
+}
+
+fn nested_slips_dom<D: Dom>(cx: &RunCtx, kinds: &[Kind]) {
+    let inputs = nested_slips(D::EV);
+    run_list::<D>(cx, "E-FAM nested calls x argument-count / separator / closer slips", &inputs, &[D::default_at()], kinds);
+}
+
+pub fn nested_slips_all(cx: &RunCtx, kinds: &[Kind]) {
+    nested_slips_dom::<F64>(cx, kinds);
+    nested_slips_dom::<I64>(cx, kinds);
+    nested_slips_dom::<Dec>(cx, kinds);
+    nested_slips_dom::<Cpx>(cx, kinds);
+    nested_slips_dom::<Num>(cx, kinds);
+}
